@@ -41,7 +41,7 @@ COMPONENTS = {
     "oracle": ["refavro.conforms (independent conformance predicate)", "fastavro.validate", "writers accept + read back"],
 }
 PROBES = ["extreme_randint", "extreme_random", "extreme_getrandbits", "extreme_choices", "logical_schema",
-          "recursive_schema", "by_name_reference", "n_zero", "n_many", "generate_one", "n_huge", "partial_consumption"]
+          "recursive_schema", "by_name_reference", "n_zero", "n_many", "generate_one", "n_huge", "partial_consumption", "schema_object_edited_in_place"]
 
 
 def setup():
@@ -261,6 +261,19 @@ def run_one(ch, ctx):
     saved = F.utils.random
     F.utils.random = sim
     try:
+        if (not parsed and isinstance(schema, dict) and schema.get("type") == "record" and len(schema.get("fields", [])) >= 2
+                and ch.chance(15)):
+            # the caller's schema object had an older shape (without its last field) when it was first
+            # used for generation, and was then completed in place: values must follow the schema as it is now
+            ctx.probe("schema_object_edited_in_place")
+            S = json.loads(json.dumps(schema))
+            last = S["fields"].pop()
+            try:
+                F.utils.generate_one(S) if ch.draw(2) else list(F.utils.generate_many(S, 1))
+            except Exception:  # noqa -- the older shape may not be a valid schema (dangling reference)
+                pass
+            S["fields"].append(last)
+            desc["edited_in_place"] = True
         try:
             if n is None:
                 ctx.probe("generate_one")
